@@ -179,12 +179,45 @@ def loops_of(fn: ast.FunctionDef):
     return [(i, n, fingerprint(n)) for i, n in enumerate(out)]
 
 
+class _NormTest(ast.NodeTransformer):
+    """equivalent spellings of the same loop header get the same fingerprint: `len(x) > 0` / `len(x) != 0` / `len(x) >= 1` = `x`,
+    `len(x) == 0` = `not x` (x a container), `d.keys()` as an iterable = `d`"""
+
+    def visit_Compare(self, n):
+        self.generic_visit(n)
+        if len(n.ops) == 1 and isinstance(n.left, ast.Call) and isinstance(n.left.func, ast.Name) and n.left.func.id == "len" \
+                and len(n.left.args) == 1 and isinstance(n.comparators[0], ast.Constant):
+            k, op, x = n.comparators[0].value, n.ops[0], n.left.args[0]
+            if (isinstance(op, ast.Gt) and k == 0) or (isinstance(op, ast.NotEq) and k == 0) or (isinstance(op, ast.GtE) and k == 1):
+                return x
+            if (isinstance(op, ast.Eq) and k == 0) or (isinstance(op, ast.Lt) and k == 1):
+                return ast.UnaryOp(op=ast.Not(), operand=x)
+        return n
+
+
+def _norm_iter(it):
+    if isinstance(it, ast.Call) and isinstance(it.func, ast.Attribute) and it.func.attr == "keys" and not it.args and not it.keywords:
+        return it.func.value
+    return it
+
+
 def fingerprint(loop) -> str:
+    import copy
     if isinstance(loop, ast.For):
         t = loop.target
         tt = ", ".join(ast.unparse(x) for x in t.elts) if isinstance(t, ast.Tuple) else ast.unparse(t)
-        return f"for {tt} in {ast.unparse(loop.iter)}"
-    return f"while {ast.unparse(loop.test)}"
+        return f"for {tt} in {ast.unparse(_norm_iter(loop.iter))}"
+    test = ast.fix_missing_locations(_NormTest().visit(copy.deepcopy(loop.test)))
+    return f"while {ast.unparse(test)}"
+
+
+def normalise_fingerprint(text: str) -> str:
+    """the normal form of a hand-written loop header (contracts quote the header of the loop they annotate)"""
+    try:
+        node = ast.parse(text + ":\n    pass").body[0]
+    except SyntaxError:
+        return text
+    return fingerprint(node) if isinstance(node, (ast.For, ast.While)) else text
 
 
 if __name__ == "__main__":
